@@ -62,6 +62,8 @@ def gen_scenario(rng, max_posters=3, max_posts=4, caps=(2, 3, 4, 500), self_rate
 
 
 def ev_str(e):
+    if e.signal_name == "STOP_ACTIVE_OBJECT_SIGNAL":
+        return "99.800000"          # the model's stopSig / stopUid
     return "%s.%s" % (e.signal_name[1:], e.payload)
 
 
@@ -164,7 +166,7 @@ def real_label(label, result):
 def modelled_steps(rr, nposters):
     """[(tid, label, enabled tids)] for the modelled threads, 'begin' steps dropped"""
     out = []
-    for name, label, result, enabled in rr.trace:
+    for name, label, result, enabled, _now in rr.trace:
         tid = tid_of(name)
         if tid is None or label == "begin":
             continue
@@ -286,15 +288,15 @@ def explore(run, focus, n_random):
         chooser = fair_suffix(base, 1500)
         rr = run_real(sc, chooser, max_steps=8000)
         cj = {"scenario": sc.to_json(), "chooser": kind, "seed": seed,
-              "schedule": [n for n, l, _, _ in rr.trace]}
+              "schedule": [e[0] for e in rr.trace]}
         run.count("chooser " + kind)
         run.count("posters=%d" % len(sc.progs))
         if rr.script_error:
             run.notes.append(rr.script_error)
         oracle(run, focus, sc, rr, cj)
-        if any("tok.put=full" in real_label(l, r) for _, l, r, _ in rr.trace):
+        if any("tok.put=full" in real_label(l, r) for _, l, r, _, _n in rr.trace):
             run.count("token queue full hit")
-        if any(l == "dq.rotate" for _, l, _, _ in rr.trace):
+        if any(l == "dq.rotate" for _, l, _, _, _n in rr.trace):
             run.count("overflow branch (rotate) hit")
         small = {"scenario": sc.to_json(), "chooser": kind, "seed": seed, "steps": rr.steps}
         run.case(small, nontrivial=len(sc.progs) >= 2 or bool(sc.selfposts))
@@ -318,7 +320,7 @@ def replay(case):
           {k: v for k, v in rr.finished.items() if k.startswith("P")})
     ok, diff, final = compare(sc, rr)
     print("model agrees:" if ok else "model differs:", diff or "", "| model final:", final)
-    for name, label, result, en in rr.trace[:400]:
+    for name, label, result, en, _now in rr.trace[:400]:
         if tid_of(name) is not None and label != "begin":
             print("  %-3s %s" % (name, real_label(label, result)))
     return 0
